@@ -528,4 +528,36 @@ Section BalloonProofs.
     rewrite Hee, Hdd. cbn [andb].
     rewrite <- HAd at 1. rewrite Hmr, Hdd. reflexivity.
   Qed.
+
+  (* ------------------------------------------------------------------ C13 (membership answers)
+     For a genuine answer to a query at q <= current, the proof object the server built and its wire form
+     (history proof rebuilt at (ActualVersion, QueryVersion), hyper value rebuilt from ActualVersion) give the
+     same verdict for every digest and every pair of snapshot digests. *)
+  Theorem wire_preserves_verdict st evs d q a :
+    reach st evs -> N.of_nat (length evs) < W64 -> q < bver st ->
+    query_c st d q = QOk D E V a ->
+    forall d' h y, object_verify D E V H nbits kbits D_eqb E_eqb a d' h y = digest_verify a d' h y.
+  Proof.
+    intros Hr Hlen Hq Hqc d' h y. pose proof (reach_inv _ _ Hr) as HI.
+    unfold Balloon.query_membership_consistency in Hqc.
+    assert (Hcur : current_version D V st = bver st - 1).
+    { pose proof (inv_version _ _ HI). unfold current_version. replace (bver st + W64 - 1) with (bver st - 1 + 1 * W64) by lia.
+      rewrite N.mod_add by (unfold W64; lia). apply N.mod_small. lia. }
+    rewrite Hcur in Hqc. assert (Hclip : (bver st - 1 <? q) = false) by (apply N.ltb_ge; lia). rewrite Hclip in Hqc.
+    destruct (hyper_find D E V H nbits ds (hyper_tree D V st) (kbits d)) as [val hp] eqn:Hfind.
+    destruct val as [w|].
+    - destruct (vnum w <=? q) eqn:Hle; [|discriminate].
+      destruct (prove_membership D E V H (hget st) (vnum w) q) as [p|]; [|discriminate].
+      injection Hqc as <-. unfold Balloon.object_verify, Balloon.digest_verify.
+      cbn [a_exists a_actual a_query a_hyper_value a_history a_hist_index a_hist_version negb orb].
+      destruct (q <? vnum w); [reflexivity|].
+      assert (Hw : vval (vnum w) = w).
+      { unfold hyper_find, hyper_tree in Hfind. rewrite (inv_tree _ _ HI) in Hfind. unfold ytree_of in Hfind.
+        destruct (yfind_value_in D E V H limit _ _ _ _ _ _ _ _ Hfind) as [kb' Hin].
+        apply in_map_iff in Hin. destruct Hin as [[k0 w0] [Heq Hin]]. injection Heq as _ -> ->.
+        apply (map_get_in V _ _ _ (inv_nodup _ _ HI)) in Hin.
+        destruct (inv_vals _ _ HI _ _ Hin) as (i & Hi & -> & _). rewrite vnum_vval by lia. reflexivity. }
+      rewrite Hw. unfold Balloon.history_verify. cbn [a_history a_actual a_query]. reflexivity.
+    - injection Hqc as <-. reflexivity.
+  Qed.
 End BalloonProofs.
